@@ -351,7 +351,7 @@ def iter_shape(sh):
 @st.composite
 def hyp_cases(draw, tier):
     opts = gen.node_opts(explicit_ids=True)
-    spec = draw(gen.forest_specs(max_nodes=12, max_depth=4, max_width=4, min_nodes=0, opts=opts, alphabet=LABELS))
+    spec = draw(gen.forest_specs(max_nodes=12, max_depth=4, max_width=4, min_nodes=0, opts=opts, alphabet=LABELS, big=(8, 41)))
     if gen.spec_nodes(spec) and draw(st.sampled_from([0, 1])):
         # a key that is the explicit data_id of one node AND the plain data of another
         flat0 = []
@@ -394,7 +394,7 @@ def flavour_cases(draw, tier):
     """Trees whose data_id comes from a calc_data_id callback / a Tree subclass (objects as data), plain and typed."""
     typed = draw(st.booleans())
     spec = draw(gen.forest_specs(max_nodes=10, max_depth=4, max_width=4, min_nodes=1, alphabet=["a", "b", "c", "a1", "ab"],
-                                 opts=gen.node_opts(explicit_ids=True, kinds=typed)))
+                                 opts=gen.node_opts(explicit_ids=True, kinds=typed), big=(10, 41)))
     gen.fix_sibling_ids(spec, auto=lambda label: ("x", label))
     flavour = draw(st.sampled_from(["obj_cb", "obj_sub", "dc", "str", "factory", "dict_cb"]))
     return {"spec": spec, "typed": typed and flavour != "factory", "flavour": flavour}
@@ -416,7 +416,7 @@ def run_requery(case, rec):
 def requery_cases(tier):
     from vlib import requery
 
-    return requery.cases(max_ops=6, max_nodes=8, kinds=["add_node", "add_node", "add", "remove", "set_data", "rename", "move", "del", "copy_to"])
+    return requery.cases(max_ops=6, max_nodes=8, kinds=["add_node", "add_node", "add", "remove", "set_data", "rename", "move", "del", "copy_to"], big=(20, 41))
 
 
 PARTS = [
